@@ -49,6 +49,10 @@ _types = {}
 
 
 def get_type(case):
+    """The type of the case, created once per process the way the case's "after" history says: the restrictions
+    are handed over as a caller-owned list object (or, kind "tuple", as the bare pair) and that list is changed
+    AFTER the type exists (a caller growing / reusing one working list); with "rebuild" a further type is then
+    created from the changed list. The type must keep the comparisons stated at its creation."""
     base = int if case["base"] == "int" else float
     restr = [(sym, dec_pv(ref)) for sym, ref in case["restr"]]
     try:
@@ -59,10 +63,38 @@ def get_type(case):
     if key not in _types:
         from jsonargparse.typing import registered_types
 
-        if key in registered_types:  # one of the predefined types (PositiveInt, ...)
+        if key in registered_types:  # one of the predefined types (PositiveInt, ...) or created by a "rebuild"
             _types[key] = registered_types[key]
         else:
-            _types[key] = restricted_number_type("C20T%d" % len(_types), base, list(restr), join=case["join"])
+            after = case.get("after") or {"kind": "none"}
+            kind = after.get("kind", "none")
+            name = "C20T%d" % len(_types)
+            if kind == "tuple" and len(restr) == 1:
+                _types[key] = restricted_number_type(name, base, restr[0], join=case["join"])
+            else:
+                working = list(restr)  # the caller's list object
+                _types[key] = restricted_number_type(name, base, working, join=case["join"])
+                cmp = None
+                if after.get("cmp"):
+                    cmp = (after["cmp"][0], dec_pv(after["cmp"][1]))
+                if kind in ("append", "tuple") and cmp:
+                    working.append(cmp)
+                elif kind == "clear":
+                    working.clear()
+                elif kind == "set0" and cmp:
+                    if working:
+                        working[0] = cmp
+                    else:
+                        working.append(cmp)
+                elif kind == "pop_append" and cmp:
+                    if working:
+                        working.pop()
+                    working.insert(0, cmp)
+                if after.get("rebuild") and kind != "none":
+                    try:  # the next type of the family, from the same (changed) list object
+                        restricted_number_type(name + "next", base, working, join=case["join"])
+                    except ValueError:
+                        pass  # same restrictions already registered under another name
     return _types[key], base
 
 
